@@ -73,7 +73,7 @@ func (h *H[T]) C11(rc *runCtx) *Violation {
 	}
 	shareMode := prog.Draw(3) // 0 one shared pointer, 1 per-task copies by value, 2 mixed per cycle
 	progs := make([][]cycle, g)
-	estSteps, estInner := 0, 0
+	estSteps := 0
 	for t := range progs {
 		progs[t] = make([]cycle, m)
 		for c := range progs[t] {
@@ -100,19 +100,17 @@ func (h *H[T]) C11(rc *runCtx) *Violation {
 			cy.putArg = uint64(prog.Draw(1 << 16))
 			cy.second = prog.Draw(6) == 5
 			estSteps += 8 + len(cy.uses) + cy.hold
-			estInner += 3 * a.Channels * a.Capacity
 		}
 	}
 	sim.Strategy = 1 + sim.Sched.Draw(simrt.NumStrategies-1) // never the sequential reference
 	sim.StickyP = []int{2, 4, 8, 16}[sim.Sched.Draw(4)]
-	for k := sim.Sched.Draw(4); k > 0; k-- {
-		sim.InnerEvery = append(sim.InnerEvery, sim.Sched.Draw(estInner+1))
-	}
+	drawInner(sim)
 	rc.tally("strategy", simrt.StrategyNames[sim.Strategy])
 	rc.tally("tasks", spA("%d", g))
+	rc.tally("inner_gap", spA("%d", sim.InnerG))
 	rc.tally("share_mode", []string{"shared-pointer", "by-value-copies", "mixed"}[shareMode])
-	rc.cfg = spA("alloc=%+v G=%d M=%d share=%d strategy=%s stickyP=%d inner=%v %s", a, g, m, shareMode,
-		simrt.StrategyNames[sim.Strategy], sim.StickyP, sim.InnerEvery, env)
+	rc.cfg = spA("alloc=%+v G=%d M=%d share=%d strategy=%s stickyP=%d innerG=%d %s", a, g, m, shareMode,
+		simrt.StrategyNames[sim.Strategy], sim.StickyP, sim.InnerG, env)
 	sim.Tracef("config: T=%s %s", h.name, rc.cfg)
 	if shareMode != 0 {
 		rc.probes[pByValueCopies]++
